@@ -48,6 +48,17 @@ pub fn edge_keys() -> Vec<BigUint> {
         r2::hexn("7FFFFFFFFFFFFFFFFFFFFFFFFFFFFFFFFFFFFFFFFFFFFFFFFFFFFFFFFFFFFFFFFF"),
         n - (BigUint::one() << 128),
     ];
+    // keys for which d or 1 + d has a boundary word as its Montgomery representation mod n (d = w R^-1, d = w R^-1 - 1
+    // for w in {1, 2, 2^64}): a shortcut that tests the stored form against the plain constant fires only here
+    let r: BigUint = (BigUint::one() << 256) % n;
+    let rinv = r.modinv(n).unwrap();
+    for w in [BigUint::one(), BigUint::from(2u32), BigUint::one() << 64] {
+        let x = (&w * &rinv) % n;
+        v.push(x.clone());
+        v.push((&x + n - 1u32) % n);
+    }
+    v.push(r.clone());
+    v.push(&r - 1u32);
     v.retain(|d| !d.is_zero() && d < &(n - 1u32));
     v
 }
